@@ -342,6 +342,7 @@ type SpecFile struct {
 	GhostVars [][2]string // global ghost variables: name, type
 	Consts    [][3]string // const checks: name, expected value, props
 	GuardedBy  [][4]string // struct, map field, mutex field, props
+	MapInvs    [][5]string // struct, map field, expression over k and v, props, file:line
 	GlobalInvs [][2]string // facts about package-level variables (established by initialisation), file:line
 	TypeInvs  [][3]string // struct type, expression over "self", file:line
 }
@@ -494,6 +495,13 @@ func ParseSpecLines(sf *SpecFile, file string, lines []string, trusted bool) err
 			}
 			tf := strings.SplitN(fields[1], ".", 2)
 			sf.GuardedBy = append(sf.GuardedBy, [4]string{tf[0], tf[1], fields[2], strings.Join(tags, ",")})
+		case "mapinv":
+			// mapinv[C19] Segment.fieldFSTs v != nil   (holds of every entry of every map of that field's type)
+			if len(fields) < 3 || !strings.Contains(fields[1], ".") {
+				return errf("mapinv[props] T.field expr")
+			}
+			tf := strings.SplitN(fields[1], ".", 2)
+			sf.MapInvs = append(sf.MapInvs, [5]string{tf[0], tf[1], strings.TrimSpace(rest[len(fields[1]):]), strings.Join(tags, ","), l.at})
 		case "globalinv":
 			sf.GlobalInvs = append(sf.GlobalInvs, [2]string{rest, l.at})
 		case "typeinv":
